@@ -172,6 +172,29 @@ def state_bits(approx, factors, index):
     return [bits(fm[f], index) for f in factors]
 
 
+def caller_edits(ap):
+    """the caller edits every container an EPMeanField hands out (not the messages inside): the object's own
+    state must not be reachable through them"""
+    ap.factor_mean_field.clear()
+    vm = ap.variable_messages
+    for l in vm.values():
+        l.clear()
+    vm.clear()
+    ap.variable_message_count.clear()
+    g_ = ap.mean_field
+    if isinstance(g_, dict):
+        dict.clear(g_)
+
+
+def global_by_variable(ap, index):
+    """second route to the global approximation: the product, per variable, of variable_messages"""
+    import functools
+    import operator
+    vm = ap.variable_messages
+    return nat(MeanField({v: functools.reduce(operator.mul, ms) for v, ms in vm.items() if ms}), index), \
+        sorted([index[v] * FLAT_W, n] for v, n in ap.variable_message_count.items())
+
+
 def run_raw(c):
     variables, index, factors, approx, pl, plated = build_raw(c)
     out = {"state0": state_obs(approx, factors, index), "global0": nat(approx.mean_field, index), "steps": []}
@@ -235,6 +258,7 @@ def run_raw(c):
             approx2, status = upd.update_model_approx(new, fa, approx, status_in)
         else:
             raise ValueError(s["via"])
+        caller_edits(approx2)
         after_old = before if inplace else state_bits(approx, factors, index)
         after = state_bits(approx2, factors, index)
         post = None
@@ -260,6 +284,7 @@ def run_raw(c):
         out["steps"].append({
             "retained_changed": retained_changed, "n_retained": len(retained),
             "post": post, "global_alias": nat(approx2.model_dist, index),
+            "global_vm": global_by_variable(approx2, index)[0], "vm_count": global_by_variable(approx2, index)[1],
             "cavity": pre["cavity"], "own": pre["own"], "model": pre["model"],
             "msg": nat(approx2.factor_mean_field[f], index), "global": nat(approx2.mean_field, index),
             "state": state_obs(approx2, factors, index),
